@@ -190,14 +190,16 @@ class ResourceManager:
             return dir, xdr
 
         def resolve(resource, dir, xdr, path, attrs):
+            # Build a new dictionary: `attrs` may be the resource's own `Attrs` object, and removing
+            # a key from a dictionary that is being iterated over is an error.
+            resolved_attrs = {}
             for attr_key, attr_value in attrs.items():
                 if hasattr(attr_value, "__call__"):
                     attr_value = attr_value(self)
                     assert attr_value is None or isinstance(attr_value, str)
-                if attr_value is None:
-                    del attrs[attr_key]
-                else:
-                    attrs[attr_key] = attr_value
+                if attr_value is not None:
+                    resolved_attrs[attr_key] = attr_value
+            attrs = resolved_attrs
 
             if isinstance(resource.ios[0], Subsignal):
                 res = PortGroup()
